@@ -6,6 +6,7 @@ mod c17;
 mod c18;
 mod c14;
 mod c20;
+mod c02;
 use util::*;
 
 fn main() {
@@ -54,6 +55,7 @@ fn main() {
                 "C18" => c18::corr(&mut ctx),
                 "C14" => c14::corr(&mut ctx),
                 "C20" => c20::corr(&mut ctx),
+                "C02" => c02::corr(&mut ctx),
                 "C19sweep" => c19::sweep(&mut ctx),
                 _ => {
                     eprintln!("unknown property {}", prop);
